@@ -261,7 +261,12 @@ func genMux(r *RNG, n int, op string, emit func(string)) {
 				other := msgs[r.Intn(len(msgs))]
 				switch r.Intn(10) {
 				case 9:
-					add(fmt.Sprintf("i:%d:%d:%s:%%d", []uint32{4294967295, 0}[r.Intn(2)], m.code, rb))
+					if r.Bool() {
+						add(fmt.Sprintf("i:%d:%d:%s:%%d", []uint32{4294967295, 0}[r.Intn(2)], m.code, rb))
+					} else {
+						// keys that differ from the catch-all's own index in one component only
+						add([]string{"i:4294967295:16777215:A:%d", "i:4294967295:4294967295:R:%d", "i:4294967294:4294967295:A:%d", "i:4294967295:255:A:%d"}[r.Intn(4)])
+					}
 				case 0, 1:
 					add(fmt.Sprintf("i:%d:%d:%s:%%d", m.app, m.code, rb))
 				case 2:
